@@ -23,7 +23,7 @@ def opt_cases(r, n_random, exhaustive_upto=0, stride_all=False):
             for s in SZX:
                 out.append("blkopt %d %d %d" % (num, m, s))
     if stride_all:
-        for num in range(0, 1 << 20, stride_all):
+        for num in range(0, 1 << 20, int(stride_all)):
             h = (num * 2654435761) >> 7
             out.append("blkopt %d %d %d" % (num, h & 1, (h >> 1) % 7))
     for _ in range(n_random):
